@@ -28,7 +28,7 @@ RULE = ("seeded swarm: handler decision sequences (SLEEP..., then DEFER/ABORT/no
         "seams when no sleeper is given; distinct by trace shape; non-trivial = >=1 failed attempt")
 COMPONENTS = common.REAL_COMPONENTS
 ASSUMPTIONS = ["the decorator has no call-level sleep plumbing; its placements are policy-level", "sampling, not proof"]
-BUDGETS = {"quick": (20000, 40), "thorough": (1200000, 280)}
+BUDGETS = {"quick": (60000, 90), "thorough": (2800000, 285)}
 
 
 def gen(seed, tier="quick"):
